@@ -33,15 +33,24 @@ Check(n) ==
       out  == ob.out
       alg  == AlgParse(sh, ob.items)
       adump == AlgDump(sh, alg.c)
-      are  == AlgReparse(sh, adump)
+      dcf  == DcfItemsOf(ob.items)
+      are  == AlgReparse(sh, dcf, adump)
       dev  == out.ok /\ ListItemsKeepTarget(sh, out.c)
       asv  == AlgSaveMulti(sh, alg.c)
-      asre == AlgSaveReparse(sh, asv)
+      asre == AlgSaveReparse(sh, dcf, asv)
+      \* (round 4) the recorded deviation ApDropsLinks: the observation breaks the property AND is exactly (parse, dump,
+      \* re-parse) what the transcription of the ActionParser route gives
+      apdev == /\ sh.ap /\ out.ok /\ SourcesTyped(out.c) /\ ob.dumped /\ ApDropsLinks(sh, ob.items, out, ob.dump)
+               /\ alg.ok /\ out.c = alg.c /\ ob.dump = adump /\ ob.re.ok = are.ok /\ (are.ok => ob.re.c = are.c)
   IN /\ (out.ok => SourcesTyped(out.c)) \/ Say(n, "ref-malformed")
      /\ IF out.ok /\ ~SourcesTyped(out.c) THEN TRUE
+        ELSE IF apdev THEN Say(n, "ref-dev-ap-as-alg")
+        ELSE IF DcfDeviation(sh, ob.items, out) THEN Say(n, "ref-dev-dcf-as-alg")
+        ELSE IF SubEnvDeviation(sh, ob.items, out) THEN Say(n, "ref-dev-sub-env-as-alg")     \* (round 4; the observation is a failed parse, like the transcription)
         ELSE /\ (out.ok => TargetEq(sh, out.c)) \/ Say(n, "ref-target-not-fn-of-sources")
              /\ ((\E x \in DOMAIN ob.items : UsesPlainOption(sh, ob.items[x])) => ~out.ok) \/ Say(n, "ref-plain-option-accepted")
-             /\ ((\A x \in DOMAIN ob.items : ~SuppliesTarget(ob.items[x])) => out.ok) \/ Say(n, "ref-target-required")
+             /\ (((\A x \in DOMAIN ob.items : ~SuppliesTarget(ob.items[x])) /\ ~RaisesOn(sh, ob.items)) => out.ok) \/ Say(n, "ref-target-required")
+             /\ (RaisesOn(sh, ob.items) => ~out.ok) \/ Say(n, "ref-raising-fn-accepted")
              /\ (out.ok => ob.dumped) \/ Say(n, "ref-dump-fails")
              /\ IF ~(out.ok /\ ob.dumped) THEN TRUE
                 ELSE /\ (dev \/ DumpHidesTarget(sh, ob.dump)) \/ Say(n, "ref-dump-shows-target")
@@ -58,6 +67,19 @@ Check(n) ==
                              /\ (~dev \/ (SaveHidesTarget(sh, ob.smain, ob.ssub) /\ DumpHidesTarget(sh, ob.ssingle)) \/ (ob.smain = AlgSaveMulti(sh, out.c).main /\ ob.ssingle = AlgDump(sh, out.c)))
                                   \/ Say(n, "ref-dev-list-item-other")
                              /\ (ob.sre.ok /\ SourcesTyped(ob.sre.c) /\ Reconstructed(sh, out.c, ob.sre)) \/ Say(n, "ref-save-not-reconstructed")
+             \* (round 4) dump(skip_default=True) and the parse of its text
+             /\ IF ~(out.ok /\ ob.sdtried) THEN TRUE
+                ELSE /\ ob.sdok \/ Say(n, "ref-skip-default-dump-fails")
+                     /\ IF ~ob.sdok THEN TRUE
+                        ELSE /\ (dev \/ DumpHidesTarget(sh, ob.sd)) \/ Say(n, "ref-skip-default-dump-shows-target")
+                             /\ (ob.sdre.ok /\ SourcesTyped(ob.sdre.c) /\ Reconstructed(sh, out.c, ob.sdre)) \/ Say(n, "ref-skip-default-not-reconstructed")
+                             /\ (~(alg.ok /\ out.c = alg.c) \/ LET asd == AlgDumpSD(sh, dcf, alg.c)  asdre == AlgReparse(sh, dcf, asd)
+                                                                IN ob.sd = asd /\ ob.sdre.ok = asdre.ok /\ (asdre.ok => ob.sdre.c = asdre.c)) \/ Say(n, "alg-skip-default")
+             \* (round 4) the sources of the returned namespace were edited and the namespace parsed again
+             /\ IF ~(out.ok /\ ob.htried) THEN TRUE
+                ELSE /\ (ob.hout.ok => SourcesTyped(ob.hout.c)) \/ Say(n, "ref-history-malformed")
+                     /\ (~SourcesTyped(ob.hin) \/ (ob.hout.ok /\ ~SourcesTyped(ob.hout.c)) \/ HistOK(sh, ob.hin, ob.hout)) \/ Say(n, "ref-history-target-does-not-follow")
+                     /\ (~SourcesTyped(ob.hin) \/ LET ah == AlgHist(sh, dcf, ob.hin) IN ob.hout.ok = ah.ok /\ (ah.ok => ob.hout.c = ah.c)) \/ Say(n, "alg-history")
              /\ (out.ok = alg.ok /\ (out.ok => out.c = alg.c)) \/ Say(n, "alg-parse")
              /\ (~(out.ok /\ alg.ok /\ ob.dumped /\ out.c = alg.c) \/ (ob.dump = adump /\ ob.re.ok = are.ok /\ (are.ok => ob.re.c = are.c))) \/ Say(n, "alg-dump")
              /\ (~(out.ok /\ alg.ok /\ ob.tried /\ ob.saved /\ out.c = alg.c)
